@@ -643,7 +643,18 @@ ACC["ImageBatch"] = dict(IMG_ACC, getitem=lambda o, r: o[r.choice([0, 1, slice(0
                          append=lambda o, r: o.append(o), cubes=lambda o, r: (o.cubes(), o.domains(), o.cube(r.choice([0, 1])), o.grid(r.choice([0, 1]))),
                          **{"grid:seq": lambda o, r: o.grid([g.center(_vec(r, g.ndim)) for g in o.grids()]), "sample:seq": lambda o, r: o.sample([g for g in o.grids()]),
                             "from_images": lambda o, r: type(o).from_images([o[i] for i in range(o.shape[0])]) if hasattr(type(o), "from_images") else None})
+def _other_img_grid(o, r):
+    g = _img_grid(o)
+    return g.center(_vec(r, g.ndim))
+
+
+# a typed tensor constructed from an instance of the very same class ("Image(image, other_grid)", "FlowField(flow, grid,
+# axes)", FlowField.from_image(flow)): a new object, the argument keeps its grid(s) and axes
+ACC["Image"]["ctor:self"] = lambda o, r: type(o)(o, _other_img_grid(o, r))
+ACC["ImageBatch"]["ctor:self"] = lambda o, r: type(o)(o, _other_img_grid(o, r))
 FLOW_ACC = {
+    "ctor:self": lambda o, r: type(o)(o, _other_img_grid(o, r), r.choice([Axes.WORLD, Axes.GRID, Axes.CUBE, Axes.CUBE_CORNERS])),
+    "ctor:from_image": lambda o, r: type(o).from_image(o) if hasattr(type(o), "from_image") else type(o).from_images(o) if hasattr(type(o), "from_images") else None,
     "axes": lambda o, r: o.axes(r.choice([Axes.WORLD, Axes.GRID, Axes.CUBE, Axes.CUBE_CORNERS])),
     "axes:same": lambda o, r: o.axes(o.axes()),
     "exp": lambda o, r: o.exp(steps=3),
